@@ -47,6 +47,7 @@ GROUPINGS = {
     "g + h": [["g"], ["h"]],
     "g/h": [["g"], ["g", "h"]],
     "C(k)": [["C(k)"]],
+    "k": [["k"]],  # a plain integer column used as grouping factor
 }
 CATS = {"f", "f2"}
 _FR = {}
@@ -252,6 +253,21 @@ def check_case(case, acc):
             problems.append(("coding", "dependent", f"factor {fac}: {rep['ncol']} columns of rank {rep['rank_x']} (space of group-by-cell means has dimension {rep['rank_r']})"))
         elif not ok:
             problems.append(("coding", "incomplete", f"factor {fac}: columns span {rep['rank_x']} of the {rep['rank_r']} dimensions of the group-by-cell means"))
+    # a later, different design with the same term names at other offsets must not disturb this one
+    if len(case["terms"]) == 1 and case["terms"][0][0] != "1" and not problems:
+        e_, z_, g_ = case["terms"][0]
+        other = {"lv": case["lv"], "holes": case.get("holes", False), "terms": [[e_, not z_, g_]]}
+        try:
+            acc.calls += 1
+            design_matrices(formula_of(other), df)
+        except Exception:
+            pass
+        for name in names:
+            if name in exp:
+                Z2 = np.asarray(grp[name], dtype=float)
+                if Z2.shape != np.asarray(grp.terms[name].data).shape or not np.array_equal(Z2, np.asarray(grp.terms[name].data, dtype=float)):
+                    problems.append(("block", "later-build", f"{name}: group[{name!r}] changed after another design with the same term name was built"))
+                    break
     nontriv = any(set(a for t in EFFECTS[e] for a in t) & CATS or len(GROUPINGS[g]) > 1 or len(GROUPINGS[g][0]) > 1 for e, z, g in case["terms"])
     if problems:
         acc.case(f, "MISMATCH", sample=False)
